@@ -199,6 +199,34 @@ where
     }
 }
 
+/// Modulus of the BLS12-381 base field as little-endian 64-bit limbs, the
+/// layout of a raw (Montgomery form) coordinate.
+const BASE_FIELD_MODULUS: [u64; 6] = [
+    0xb9fe_ffff_ffff_aaab,
+    0x1eab_fffe_b153_ffff,
+    0x6730_d2a0_f6b0_f624,
+    0x6477_4b84_f385_12bf,
+    0x4b1b_a7b6_434b_acd7,
+    0x1a01_11ea_397f_e69a,
+];
+
+/// Whether the 48 raw bytes of a coordinate hold a reduced field element,
+/// i.e. limbs strictly below the modulus. An unreduced coordinate is a second
+/// encoding of the same element and is never produced by the encoder.
+fn raw_coordinate_is_reduced(bytes: &[u8]) -> bool {
+    for (chunk, modulus) in
+        bytes.chunks_exact(8).zip(BASE_FIELD_MODULUS).rev()
+    {
+        let mut limb = [0u8; 8];
+        limb.copy_from_slice(chunk);
+        let limb = u64::from_le_bytes(limb);
+        if limb != modulus {
+            return limb < modulus;
+        }
+    }
+    false
+}
+
 impl CommitKey {
     /// Serialize the [`CommitKey`] into bytes.
     ///
@@ -288,6 +316,14 @@ impl CommitKey {
             // point; any other value must not reach the curve predicates
             // (they assert on it).
             if chunk[G1Affine::RAW_SIZE - 1] > 1 {
+                return Err(Error::PointMalformed);
+            }
+
+            // Both coordinates must be canonically encoded (reduced) field
+            // elements.
+            if !raw_coordinate_is_reduced(&chunk[..48])
+                || !raw_coordinate_is_reduced(&chunk[48..96])
+            {
                 return Err(Error::PointMalformed);
             }
 
